@@ -1,21 +1,32 @@
 #!/bin/bash
-# seedsweep.sh [tier]: apply every stored seeded change (seeded/<id>/patch.diff) to /repo in turn, run the quick (or given)
-# check of its property, restore /repo, and write one line per change to seeded/SWEEP.txt.
-tier=${1:-quick}
-out=/verif/seeded/SWEEP.txt
-: > $out.tmp
-for d in /verif/seeded/*/; do
-  name=$(basename $d)
-  [ -f $d/patch.diff ] || continue
-  id=$(jq -r .property $d/meta.json)
-  if ! git -C /repo apply --check $d/patch.diff 2>/dev/null; then
-    echo "$name $id NOT-APPLICABLE (does not apply to the current tree: superseded by a repair)" >> $out.tmp; continue
-  fi
-  res=$(/verif/tools/seedrun.sh $d/patch.diff $id $tier 2>&1)
-  rc=$(echo "$res" | grep -o "check exit=[0-9]*" | cut -d= -f2)
-  sig=$(echo "$res" | grep -o "^  C[0-9][0-9]/[^:]*" | head -1 | tr -d ' ')
-  case "$rc" in 1) r="KILLED $sig";; 0) r=SURVIVED;; *) r="rc=$rc";; esac
-  echo "$name $id $r" >> $out.tmp
-  echo "$name $id $r"
-done
-mv $out.tmp $out
+# seedsweep.sh [tier] [workers]: run the check of its property against every stored seeded change (seeded/<id>/patch.diff),
+# each applied to a scratch worktree of /repo HEAD (never to /repo itself), and write one line per change to seeded/SWEEP.txt.
+tier=${1:-quick}; nw=${2:-4}
+export GOFLAGS=-mod=mod GOPROXY=off GOSUMDB=off GOTOOLCHAIN=local
+mkdir -p /tmp/mut
+ls -d /verif/seeded/*/ > /tmp/mut/sweep_list.txt
+worker() {
+  k=$1; wt=/tmp/mut/sw$k; i=0
+  git -C /repo worktree remove --force $wt 2>/dev/null; git -C /repo worktree prune
+  git -C /repo worktree add --detach -q $wt HEAD || exit 2
+  for d in $(cat /tmp/mut/sweep_list.txt); do
+    i=$((i+1)); [ $((i % nw)) -eq $k ] || continue
+    name=$(basename $d); [ -f $d/patch.diff ] || continue
+    id=$(jq -r .property $d/meta.json)
+    git -C $wt checkout -q -- . ; git -C $wt clean -qfd
+    if ! git -C $wt apply $d/patch.diff 2>/dev/null; then
+      echo "$name $id NOT-APPLICABLE (does not apply to the current tree: superseded by a repair)"; continue
+    fi
+    res=$(cd /verif && VERIF_REPO=$wt ./check $id $tier 2>&1)
+    rc=$?
+    sig=$(echo "$res" | grep -o "^  C[0-9][0-9]/[^:]*" | head -1 | tr -d ' ')
+    case "$rc" in 1) r="KILLED $sig";; 0) r=SURVIVED;; *) r="rc=$rc $(echo "$res" | tail -1 | cut -c1-100)";; esac
+    echo "$name $id $r"
+  done
+  git -C /repo worktree remove --force $wt
+  rm -f /verif/.work/bin/harness-_tmp_mut_sw$k.test /verif/.work/alt-_tmp_mut_sw$k.* /verif/.work/evidence-alt-*
+}
+for k in $(seq 0 $((nw-1))); do worker $k > /tmp/mut/sweep_$k.out 2>&1 & done
+wait
+cat /tmp/mut/sweep_*.out | sort > /verif/seeded/SWEEP.txt
+grep -c KILLED /verif/seeded/SWEEP.txt
